@@ -2174,3 +2174,86 @@ func E9TangentFromRoots(c *core.Ctx, r *core.Report) {
 	r.Count("E9.line-conic-helpers", n)
 	r.Floor("E9.line-conic-helpers", 2)
 }
+
+// E9EndpointSnap: a parameter within Epsilon of a segment end is stored as that end.
+func E9EndpointSnap(c *core.Ctx, r *core.Report) {
+	r.Rule("E9.endpoint-snap", "The line/curve intersection helpers flag a hit as an end point hit when its parameter is within Epsilon of 0 or 1 (Equal(root, 0.0) …), and windings/Crossings recognise end point hits by T being exactly 0 or 1. Intersections.add, through which every hit is stored, therefore snaps with the same tolerance: each of its four assignments `t = 0.0` / `t = 1.0` (both parameters) is guarded by a condition that includes Equal(t, that constant). With exact comparisons only, a root such as 0.9999999999999997 is flagged as an end point hit but classified as interior, dropped as tangent, and its partner on the adjoining segment stays unpaired")
+	p := c.MustPkg("")
+	info := p.TypesInfo
+	fd := core.MustFuncDecl(p, "Intersections.add")
+	r.Func("canvas.Intersections.add")
+	n := 0
+	var stack []ast.Node
+	ast.Inspect(fd.Body, func(m ast.Node) bool {
+		if m == nil {
+			stack = stack[:len(stack)-1]
+			return true
+		}
+		stack = append(stack, m)
+		as, ok := m.(*ast.AssignStmt)
+		if !ok || as.Tok != token.ASSIGN || len(as.Lhs) != 1 || len(as.Rhs) != 1 {
+			return true
+		}
+		id, ok := as.Lhs[0].(*ast.Ident)
+		if !ok {
+			return true
+		}
+		o := core.ObjOf(info, id)
+		if o == nil || paramIndex2(info, fd, o) < 0 {
+			return true
+		}
+		k, isConst := constantFloat(core.ConstVal(info, as.Rhs[0]))
+		if !isConst || (k != 0 && k != 1) {
+			return true
+		}
+		n++
+		key := fmt.Sprintf("canvas.Intersections.add|%s = %v is taken within Epsilon", id.Name, k)
+		// the guarding condition: the if (or else-if) whose body holds the assignment
+		var cond ast.Expr
+		for i := len(stack) - 2; i >= 0; i-- {
+			if is, ok := stack[i].(*ast.IfStmt); ok && is.Body.Pos() <= as.Pos() && as.End() <= is.Body.End() {
+				cond = is.Cond
+				break
+			}
+		}
+		okSnap := false
+		if cond != nil {
+			ast.Inspect(cond, func(q ast.Node) bool {
+				call, ok := q.(*ast.CallExpr)
+				if !ok || len(call.Args) != 2 {
+					return true
+				}
+				if f := core.CalleeOf(info, call); f == nil || f.Name() != "Equal" {
+					return true
+				}
+				if aid, ok := core.Unparen(call.Args[0]).(*ast.Ident); ok && core.ObjOf(info, aid) == o {
+					if v, ok := constantFloat(core.ConstVal(info, call.Args[1])); ok && v == k {
+						okSnap = true
+					}
+				}
+				return true
+			})
+		}
+		if okSnap {
+			r.OK("E9.endpoint-snap", key, c.Pos(as.Pos()), "")
+		} else {
+			r.Fail("E9.endpoint-snap", key, c.Pos(as.Pos()), fmt.Sprintf("the parameter `%s` is set to %v only by an exact comparison: a value within Epsilon of the end, which the helpers flag as an end point hit, keeps an interior parameter", id.Name, k))
+		}
+		return true
+	})
+	r.Count("E9.parameter-snaps", n)
+	r.Floor("E9.parameter-snaps", 4)
+}
+
+func paramIndex2(info *types.Info, fd *ast.FuncDecl, o types.Object) int {
+	k := 0
+	for _, f := range fd.Type.Params.List {
+		for _, nm := range f.Names {
+			if info.Defs[nm] == o {
+				return k
+			}
+			k++
+		}
+	}
+	return -1
+}
